@@ -1222,6 +1222,14 @@ class Executor(object):
                 return [(st, st.heap.list_len(v.owner, "_childrenv"))]
         if name == "print":
             return [(st, NONEV)]
+        if name in ("max", "min") and len(pos) == 2 and not kw and all(isinstance(x, (Num, int, float)) and not isinstance(x, bool) for x in pos):
+            # two numbers; Python keeps the FIRST argument when the comparison is false (also with a NaN operand)
+            a, b = self._num(st, pos[0]), self._num(st, pos[1])
+            take_b = (b > a) if name == "max" else (b < a)
+            out = []
+            for (s, t) in self.branch(st, take_b):
+                out.append((s, pos[1] if t else pos[0]))
+            return out
         h = getattr(self, "ext_builtin", None)
         if h:
             r = h(st, name, pos, kw)
